@@ -74,7 +74,7 @@ def classify(prog, outcome):
         return "swv-nested-wrong-values"
     if kind == "exc" and _zero_width_on_broadcast_axis(msg):
         return "broadcast-axis-zero-width-chunk"
-    if _take_on_broadcast(prog) and ("Chunks do not add up to shape" in msg or kind == "value"):
+    if _take_on_broadcast(prog) and ("Chunks do not add up to" in msg or kind == "value"):
         return "take-through-broadcast"
     if _minmax_on_empty(prog) and ("zero-size array to reduction" in msg or kind == "value"):
         return "minmax-zero-size"
